@@ -221,15 +221,18 @@ def run(tier="quick", seed=0):
             return BMP_HOSTS.get((c, f, b), BMP_HOSTS.get((c, f)))
 
         # ---- layer M: every method x every way of passing each contextual argument --------------------
-        def method_case(m, ways, blocks):
-            """ways: {contextual param: 'pos'|'kw'|'ctx'|'dflt'}; blocks: list of dicts (outermost first) entered around the call"""
+        def method_case(m, ways, blocks, zero_explicit=False, list_state=False):
+            """ways: {contextual param: 'pos'|'kw'|'ctx'|'dflt'}; blocks: list of dicts (outermost first) entered around the call;
+            zero_explicit: explicitly passed contextual values are 0; list_state: a `state` argument is a list of states"""
             nonlocal ev
             cls, name, f, names, table, kwonly, star, d, ctxnames = m
+            if list_state and "state" in d:
+                d = dict(d, state=["run", "idle"])
             ev += 1
             layers["M"] = layers.get("M", 0) + 1
             ctl = new_controller(cls)
             # what the call is given
-            explicit = dict((n, val(n, 0)) for n, w in ways.items() if w in ("pos", "kw"))
+            explicit = dict((n, 0 if zero_explicit else val(n, 0)) for n, w in ways.items() if w in ("pos", "kw"))
             pos_upto = max([names.index(n) for n, w in ways.items() if w == "pos"] + [-1])
             posargs, kwargs = [], {}
             sargs, skw = star_args.get((cls.__name__, name), ((), {}))
@@ -369,9 +372,9 @@ def run(tier="quick", seed=0):
                         if not blocks:
                             continue
                         if ways[n] == "ctx":
-                            # set in one block (value 1), shadowing decoys further out, none further in
+                            # set in one block (value 1; every other time the value 0), shadowing decoys further out, none further in
                             k = rng.randrange(depth)
-                            blocks[k][n] = val(n, 1)
+                            blocks[k][n] = 0 if rep % 2 == 1 else val(n, 1)
                             for j in range(k):
                                 if rng.random() < 0.5:
                                     blocks[j][n] = val(n, 2 + j)
@@ -390,7 +393,7 @@ def run(tier="quick", seed=0):
                     for n in cparams:
                         if ways[n] == "ctx" and not any(n in b for b in blocks):
                             eff[n] = "dflt"
-                    method_case(m, eff, blocks)
+                    method_case(m, eff, blocks, zero_explicit=(rep % 4 == 3), list_state=(rep % 2 == 0))
 
         # ---- layer N: every nesting of <= 3 blocks, every exit path -------------------------------------
         subsets = [dict((n, None) for n in c) for k in range(5) for c in itertools.combinations(MC_CTX, k)]
@@ -715,7 +718,7 @@ def run(tier="quick", seed=0):
     return {"name": "c18_context", "evaluations": ev, "distinct_nontrivial": len(distinct),
             "rule": ("layers %r. M: every decorated method of MachineController and BMPController found by introspection (%d driven, %d skipped) x every way of passing each of its "
                      "contextual arguments (positional where the prefix rule allows / keyword / from a block / left to the default) x 4 (thorough 48) drawn nestings of 0..3 blocks with shadowed "
-                     "values, decoys an explicit value must beat and arguments the method does not take; oracle = own resolution + datagrams of the undecorated function given the resolved values on a context-free controller + destination fields. "
+                     "values (the value 0 as the resolving block's / the explicit value every other / fourth time; lists of states for `state` arguments every other time), decoys an explicit value must beat and arguments the method does not take; oracle = own resolution + datagrams of the undecorated function given the resolved values on a context-free controller + destination fields. "
                      "N: every nesting of <= 3 blocks over the 16 subsets of {x,y,p,app_id} or an application block x left normally / by an exception raised in the body of any "
                      "level (after deeper blocks were left normally) and caught around any level above it (probe commands at depth 3: %s); get_context_arguments and a probe command (send_scp / sdram_alloc / write in rotation) inside every block, after every "
                      "inner exit and after every catch. S: nestings of application blocks (id positional / keyword / from context) mixed with argument blocks, every exit path: wire "
